@@ -14,6 +14,7 @@ import (
 
 	"github.com/resgateio/resgate/server/codec"
 	"github.com/resgateio/resgate/server/rescache"
+	"github.com/resgateio/resgate/server/reserr"
 )
 
 type rec map[string]any
@@ -392,6 +393,62 @@ func TestTableValues(t *testing.T) {
 							tb.add(rec{"top": "object", "rid": rk, "soft": sk, "data": dk, "action": ak, "extra": extra, "ctx": ctx, "got": ty, "grid": rid})
 						}
 					}
+				}
+			}
+		}
+	}
+}
+
+// TestTableAccess: access responses over a bounded family of members
+// through the real decoder, then CanGet and CanCall on the result as
+// rescache.Cache.Access builds it.
+func TestTableAccess(t *testing.T) {
+	tb := openTable(t, "access")
+	defer tb.close()
+	getOpt := map[string]string{"none": "", "true": `"get":true`, "false": `"get":false`, "null": `"get":null`, "string": `"get":"yes"`, "number": `"get":1`}
+	callOpt := map[string]string{"none": "", "star": `"call":"*"`, "a": `"call":"a"`, "ab": `"call":"a,b"`, "empty": `"call":""`, "null": `"call":null`, "number": `"call":7`, "stara": `"call":"*,a"`}
+	errOpt := map[string]string{"none": "", "notFound": `"error":{"code":"system.notFound","message":"x"}`, "denied": `"error":{"code":"system.accessDenied","message":"x"}`,
+		"custom": `"error":{"code":"my.err","message":"x"}`, "null": `"error":null`}
+	resOpt := []string{"object", "absent", "null", "array"}
+	code := func(err error) string {
+		if err == nil {
+			return "ok"
+		}
+		if re, ok := err.(*reserr.Error); ok {
+			return re.Code
+		}
+		return "other"
+	}
+	for _, res := range resOpt {
+		for gk, gv := range getOpt {
+			for ck, cv := range callOpt {
+				if res != "object" && (gk != "none" || ck != "none") {
+					continue
+				}
+				for ek, ev := range errOpt {
+					parts := []string{}
+					switch res {
+					case "object":
+						m := []string{}
+						for _, p := range []string{gv, cv} {
+							if p != "" {
+								m = append(m, p)
+							}
+						}
+						parts = append(parts, `"result":{`+strings.Join(m, ",")+`}`)
+					case "null":
+						parts = append(parts, `"result":null`)
+					case "array":
+						parts = append(parts, `"result":[true]`)
+					}
+					if ev != "" {
+						parts = append(parts, ev)
+					}
+					payload := "{" + strings.Join(parts, ",") + "}"
+					ar, _, rerr := codec.DecodeAccessResponse([]byte(payload))
+					acc := &rescache.Access{AccessResult: ar, Error: rerr}
+					tb.add(rec{"res": res, "get": gk, "call": ck, "err": ek,
+						"canget": code(acc.CanGet()), "calla": code(acc.CanCall("a")), "callb": code(acc.CanCall("b")), "callc": code(acc.CanCall("c"))})
 				}
 			}
 		}
